@@ -305,7 +305,8 @@ def run_kani(harnesses, jobs=None, timeout_s=None):
         shutil.copytree(KANI_DIR, kdir, ignore=shutil.ignore_patterns('target'))
         open(os.path.join(kdir, 'Cargo.toml'), 'w').write(open(ct).read().replace('/repo/etherparse', REPO + '/etherparse'))
         env['CARGO_TARGET_DIR'] = os.path.join(CACHE, 'kani-target-alt')
-    base_cmd = ['cargo', 'kani', '-Z', 'function-contracts', '-Z', 'stubbing', '-Z', 'concrete-playback', '--concrete-playback=print']
+    base_cmd = ['cargo', 'kani', '-Z', 'function-contracts', '-Z', 'stubbing']
+    pb_flags = ['-Z', 'concrete-playback', '--concrete-playback=print']
     # one build, then one cargo-kani process per harness in parallel (regular output keeps the per-check details)
     bp = subprocess.run(['cargo', 'kani', '--only-codegen', '-Z', 'function-contracts', '-Z', 'stubbing'], cwd=kdir, env=env, capture_output=True, text=True)
     if bp.returncode != 0:
@@ -314,18 +315,38 @@ def run_kani(harnesses, jobs=None, timeout_s=None):
         return results
     import concurrent.futures as cf
 
+    import resource
+
+    def run_one(cmd, h):
+        cap = (28 if h.get('heavy') else 14) * (1 << 30)     # address-space cap per process tree member: a runaway run is a
+                                                             # 'could not decide', never a pass and never an out-of-memory machine
+        def lim():
+            resource.setrlimit(resource.RLIMIT_AS, (cap, cap))
+            os.setsid()
+        try:
+            p = subprocess.Popen(cmd, cwd=kdir, env=env, stdout=subprocess.PIPE, stderr=subprocess.STDOUT, text=True, preexec_fn=lim)
+            try:
+                outp, _ = p.communicate(timeout=h.get('timeout', 900)); rc = p.returncode
+            except subprocess.TimeoutExpired:
+                import signal
+                try: os.killpg(p.pid, signal.SIGKILL)
+                except Exception: pass
+                outp = (p.communicate()[0] or '') + '\nTIMEOUT after %ss' % h.get('timeout', 900); rc = -9
+        except Exception as e:
+            outp = 'could not start: %r' % e; rc = -1
+        return outp, rc
+
     def one(h):
         cmd = base_cmd + list(h.get('args', [])) + ['--harness', h['name'], '--exact']
         t0 = time.time()
-        try:
-            p = subprocess.run(cmd, cwd=kdir, env=env, capture_output=True, text=True, timeout=h.get('timeout', 900))
-            outp = p.stdout + '\n' + p.stderr; rc = p.returncode
-        except subprocess.TimeoutExpired as e:
-            so = e.stdout.decode(errors='replace') if isinstance(e.stdout, bytes) else (e.stdout or '')
-            outp = so + '\nTIMEOUT after %ss' % h.get('timeout', 900); rc = -9
-            subprocess.run(['pkill', '-f', 'cbmc.*' + h['name']], capture_output=True)
+        outp, rc = run_one(cmd, h)
         parsed = parse_kani(outp, [h['name']])
         r = parsed.get(h['name'].split('::')[-1], {'status': 'timeout' if rc == -9 else 'no_result', 'checks': 0, 'failed_checks': [], 'raw_tail': outp[-3000:]})
+        if r['status'] == 'failed':
+            # second run, only for failing harnesses: ask Kani for the concrete values of the failed check
+            outp2, rc2 = run_one(base_cmd + pb_flags + list(h.get('args', [])) + ['--harness', h['name'], '--exact'], h)
+            r2 = parse_kani(outp2, [h['name']]).get(h['name'].split('::')[-1])
+            if r2 and r2.get('playback'): r['playback'] = r2['playback']
         r.update(cmd=' '.join(cmd), wall_s=round(time.time() - t0, 1), from_cache=False, rc=rc)
         return h, r
 
